@@ -150,15 +150,30 @@ func (p *proc) call(req *Request, timeout time.Duration) (*Response, error) {
 		err := p.dec.Decode(&r)
 		ch <- res{&r, err}
 	}()
-	select {
-	case r := <-ch:
-		if r.err != nil {
-			return nil, r.err
+	// Watchdog on *progress*, not on the whole request: the worker keeps its
+	// in-flight marker (run index, and for C08 the input being decoded) up to
+	// date; only if neither a response nor any change of the marker is seen
+	// for the whole timeout is the worker declared stuck.
+	last := time.Now()
+	lastIdx, lastPl := p.inflight.read()
+	tick := time.NewTicker(5 * time.Second)
+	defer tick.Stop()
+	for {
+		select {
+		case r := <-ch:
+			if r.err != nil {
+				return nil, r.err
+			}
+			return r.r, nil
+		case <-tick.C:
+			idx, pl := p.inflight.read()
+			if idx != lastIdx || !bytes.Equal(pl, lastPl) {
+				lastIdx, lastPl, last = idx, pl, time.Now()
+			} else if time.Since(last) > timeout {
+				p.cmd.Process.Kill()
+				return nil, errWatchdog
+			}
 		}
-		return r.r, nil
-	case <-time.After(timeout):
-		p.cmd.Process.Kill()
-		return nil, errWatchdog
 	}
 }
 
